@@ -130,7 +130,7 @@ def r_wrappers(chk, P, tier):
         calls = {c[1] for t in r for c in find_calls(t)}
         others = {c for c in calls if c.startswith(U + "from_timestamp") and c != U + target}
         chk.expect(U + target in calls and not others, w, "%s does not delegate to %s only: %s" % (w, target, sorted(c.split("::")[-1] for c in calls)), loc=P.loc(fn))
-    chk.rule("DOM.wrappers", "no wrapper decides on its own: every return of TimeZone::timestamp_* lies behind the call of the DateTime::<Utc>::from_timestamp* it wraps, and the instant reaches the zone through from_utc_datetime", floor=8)
+    chk.rule("DOM.wrappers", "no wrapper decides on its own (one call of the wrapped constructor, on the wrapper's own parameters): every return of TimeZone::timestamp_* lies behind the call of the DateTime::<Utc>::from_timestamp* it wraps, and the instant reaches the zone through from_utc_datetime", floor=12)
     for w, target in (("timestamp_opt", "from_timestamp"), ("timestamp_millis_opt", "from_timestamp_millis"), ("timestamp_micros", "from_timestamp_micros"), ("timestamp_nanos", "from_timestamp_nanos")):
         fn = "offset::TimeZone::" + w
         paths = [p_ for p_ in Sym(P, fn).paths() if p_.end[0] == "return"]
@@ -138,6 +138,12 @@ def r_wrappers(chk, P, tier):
             raise AnchorLost(fn + " has no return path")
         bad = [p_ for p_ in paths if not any(c[1] == U + target for c in p_.calls)]
         chk.expect(not bad, w, "%s returns on %d of %d paths without having called %s (a rejection or result of its own)" % (w, len(bad), len(paths), target), loc=P.loc(fn))
+        # one decision: the wrapped constructor is called at one site, with the wrapper's own parameters unmodified (no retry with adjusted arguments)
+        sites = [t for _i, t, cs_ in P.calls(fn) if U + target in cs_]
+        argsets = {c[2] for p_ in paths for x in [p_.ret] + [c_[1] for c_ in p_.conds] if x is not None for c in find_calls(x, lambda c: c[1] == U + target)}
+        own = all(tuple(unref(a) for a in args) == tuple(("arg", i + 2) for i in range(len(args))) for args in argsets)
+        chk.expect(len(sites) == 1 and argsets and own, w + " one call", "%s calls %s at %d sites with arguments %s (expected one call on its own parameters)" % (
+            w, target, len(sites), sorted(str([pp(a)[:30] for a in args]) for args in argsets)[:3]), loc=P.loc(fn))
         # the instant is UTC: it is handed to the zone as a UTC value (from_utc_datetime), never re-read as a wall-clock value
         cs = {c.split("::")[-1] for c in callees(P, fn) if c.startswith("offset::TimeZone::from_")}
         chk.expect(cs == {"from_utc_datetime"}, w + " utc", "%s converts the UTC instant through %s (expected from_utc_datetime only)" % (w, sorted(cs)), loc=P.loc(fn))
